@@ -138,6 +138,18 @@ def run(chk):
                         it = env.interp(max_paths=4096)
                         it.join_on_top = True
                         it.uf_fallback = True
+                        if name == "bdd_complexity":
+                            # the node-counting kernel (C07, not applicable) stays an uninterpreted function of
+                            # (num_vars, concatenated blocks): both types must hand it the same arguments
+                            for blk in b["mir"]["blocks"]:
+                                tm_ = blk["term"]
+                                if tm_["k"] == "call" and "indirect" not in tm_["func"] and (tm_["func"].get("resolved") or {}).get("local"):
+                                    cb = env.facts.body(tm_["func"]["resolved"]["key"])
+                                    if cb and cb.get("sig") and cb["sig"]["output"]["k"] == "uint" and any(ty["k"] == "ref" and ty["t"]["k"] == "slice" for ty in cb["sig"]["inputs"]):
+                                        def uf(interp, fr_, args_, st_, pc_, t_, path_=cb["path"]):
+                                            from ..absint import Outcome as _O
+                                            return [_O("return", st_, pc_, Opaque("uf", (path_,) + tuple(interp.uf_arg(x, st_) for x in args_)))]
+                                        it.opaque_fns[cb["key"]] = uf
                         st = State()
                         full = ([n] if (cls and cls[0] == "n") else []) + list(combo)
                         if "luts" in cls:
